@@ -35,6 +35,75 @@ def fn_body(src, header_re):
     return None
 
 
+# ---- C19: the rule arrays of util/utf8_icu.cc as the SOURCE TEXT lists them, and which array is listed for which language.
+# LISTED is specification, not code reading: the arrays' own names say whom they are for (kGeneralReplace: every language;
+# kReplaceForEnglish*: English; kReplaceForFrench: French); kReplaceWithQuote is the straight-quote convention of English, German
+# and Spanish (French has its own guillemet table, Czech quotes are an open TODO in the source).
+LISTED = {"en": [("kGeneralReplace", False), ("kReplaceWithQuote", False), ("kReplaceForEnglishRightBoundary", True), ("kReplaceForEnglish", False)],
+          "fr": [("kGeneralReplace", False), ("kReplaceForFrench", False)],
+          "de": [("kGeneralReplace", False), ("kReplaceWithQuote", False)],
+          "es": [("kGeneralReplace", False), ("kReplaceWithQuote", False)],
+          "cs": [("kGeneralReplace", False)]}
+
+
+def _c_unescape(t):
+    out, i = [], 0
+    while i < len(t):
+        c = t[i]
+        if c == "\\" and i + 1 < len(t):
+            n = t[i + 1]
+            if n == "u":
+                out.append(chr(int(t[i + 2:i + 6], 16)))
+                i += 6
+                continue
+            if n == "U":
+                out.append(chr(int(t[i + 2:i + 10], 16)))
+                i += 10
+                continue
+            out.append({"n": "\n", "t": "\t", "\\": "\\", '"': '"', "'": "'", "0": "\0"}.get(n, n))
+            i += 2
+            continue
+        out.append(c)
+        i += 1
+    return "".join(out)
+
+
+def flatten_source_arrays():
+    """{array name: [(from, to), ...]} from the text of util/utf8_icu.cc (line comments removed, so a commented-out rule is no rule)"""
+    src = open(os.path.join(REPO, "util/utf8_icu.cc"), encoding="utf-8").read()
+    src = "\n".join(re.sub(r'^((?:[^"/]|"(?:[^"\\]|\\.)*"|/(?!/))*)//.*$', r"\1", ln) for ln in src.split("\n"))
+    arrays = {}
+    for m in re.finditer(r"const\s+ReplaceRule\s+(k\w+)\s*\[\s*\]\s*=\s*\{(.*?)\n\};", src, re.S):
+        arrays[m.group(1)] = [(_c_unescape(a), _c_unescape(b)) for a, b in
+                              re.findall(r'\{\s*"((?:[^"\\]|\\.)*)"\s*,\s*"((?:[^"\\]|\\.)*)"\s*\}', m.group(2))]
+    return arrays
+
+
+def _u16(t):
+    b = t.encode("utf-16-le")
+    return [int.from_bytes(b[i:i + 2], "little") for i in range(0, len(b), 2)]
+
+
+def flatten_listed_tables():
+    """the per-language tables that AddToFlatten builds from the LISTED arrays (same insertion rules as the C++):
+    {lang: [(start cp, [(suffix units, to units, right_boundary)], fallback units)] sorted by cp}"""
+    import unicodedata
+    arrays = flatten_source_arrays()
+    tables = {}
+    for lang, groups in LISTED.items():
+        t = {}
+        for name, rb in groups:
+            for frm, to in arrays[name]:
+                to_u = _u16(unicodedata.normalize("NFKC", to))
+                head, rest = frm[0], frm[1:]
+                if not rest:
+                    t.setdefault(ord(head), [[], []])[1] = to_u            # starts[c].character = to
+                else:
+                    t.setdefault(ord(head), [[], _u16(head)])[0].append((_u16(rest), to_u, rb))
+        tables[lang] = [(cp, t[cp][0], t[cp][1]) for cp in sorted(t)]
+    return tables
+
+
 def text_consts():
     """function-local literals, read from the (comment-stripped) source text."""
     out = {}
@@ -155,6 +224,17 @@ def generate(bdir):
     for lang in sorted(flat):
         fl.append(f"def flatten_{lang} : List Start := [\n" + ",\n".join(flat[lang]) + "]\n")
     fl.append("def flattenLangs : List (String × List Start) := [" + ", ".join(f'("{l}", flatten_{l})' for l in sorted(flat)) + "]")
+    # the same tables built from the source text's arrays and the LISTED assignment of arrays to languages (specification side)
+    try:
+        listed = flatten_listed_tables()
+        for lang in sorted(listed):
+            il = lambda x: "[" + ", ".join(map(str, x)) + "]"
+            rows = ["  ⟨%d, [%s], %s⟩" % (cp, ", ".join("⟨%s, %s, %s⟩" % (il(su), il(to), "true" if rb else "false") for su, to, rb in longer), il(fb))
+                    for cp, longer, fb in listed[lang]]
+            fl.append(f"\ndef flattenListed_{lang} : List Start := [\n" + ",\n".join(rows) + "]")
+        fl.append("\ndef flattenListedLangs : List (String × List Start) := [" + ", ".join(f'("{l}", flattenListed_{l})' for l in sorted(listed)) + "]")
+    except Exception as e:   # the Lean build then fails on the missing definition, which is reported
+        fl.append("-- NOTE: rule arrays not found in util/utf8_icu.cc: %r" % (e,))
     fl.append("end PV.Gen")
     changed |= _write_if_changed(os.path.join(os.path.dirname(OUT), "Flatten.lean"), "\n".join(fl) + "\n")
     st = ["/- GENERATED by tools/gen_consts.py: what preprocess::Wait(child) returned, in this build, for children that exited", 
